@@ -1,1 +1,170 @@
-import BigtreeModel.Basic
+import BigtreeModel.DagStore
+import BigtreeProofs.Lemmas.DagStoreEdges
+import BigtreeProofs.Lemmas.DagStoreExtra
+/-!
+# C10 — DAG links stay symmetric, duplicate-free and acyclic under every history
+
+Model: `BigtreeModel/DagStore.lean` (statement-level model of `bigtree/node/dagnode.py`).
+`DWF s` := `p ∈ parents c ↔ c ∈ children p`, both lists `Nodup`, ids in range,
+`∀ v, Acc (fun p c => p ∈ parents c) v` (nobody is its own ancestor).
+Every theorem is for all stores / operations / arguments (valid or not) / hook faults, with the
+checks on (`asrt = true`); each is followed by an `example` on a concrete non-trivial store.
+-/
+
+namespace C10
+open DagStore
+
+/-- four nodes `0 → 1 → 2 → 3` (a path of length 3) plus the shortcut `0 → 2`, built by a
+history that uses both setters, `>>` and `<<` -/
+def demoOps : List Op :=
+  [.setChildren 0 (.list [1]) .none, .rshift 1 2 .none, .lshift 3 2 .none,
+   .setParents 2 (.list [1, 0]) .none]
+def demo : DStore := (run true (init 4 fun _ => []) demoOps).1
+
+/-! ## the invariant -/
+
+theorem dwf_init (k : Nat) (names : Nat → Str) : DWF (init k names) := DagStore.dwf_init k names
+
+example : DWF (init 4 fun _ => []) := dwf_init 4 _
+
+/-- every operation (both setters, `>>`, `<<`, both deleters, the constructor), with every
+argument — including non-nodes, the node itself, ancestors / descendants, repeated members,
+tuples, non-iterables — and every hook fault, keeps the store well-formed -/
+theorem dwf_step {s : DStore} (hs : DWF s) (op : Op) : DWF (step true s op).1 :=
+  DagStore.dwf_step hs op
+
+/-- every store reachable by a finite history from freshly constructed nodes is well-formed -/
+theorem dwf_run (k : Nat) (names : Nat → Str) (ops : List Op) :
+    DWF (run true (init k names) ops).1 :=
+  DagStore.dwf_run (DagStore.dwf_init k names) ops
+
+/-- … and so is every store the history passes through -/
+theorem dwf_trace (k : Nat) (names : Nat → Str) (ops : List Op) :
+    ∀ r ∈ trace true (init k names) ops, DWF r.1 :=
+  DagStore.dwf_trace (DagStore.dwf_init k names) ops
+
+example : DWF demo := dwf_run 4 _ demoOps
+example : demo.parents 2 = [1, 0] ∧ demo.children 0 = [1, 2] ∧ demo.parents 3 = [2] := by decide
+-- the step theorem applies to an operation that is refused (cycle through a path of length 3) …
+example : (step true demo (.setChildren 3 (.list [0]) .none)).2 = .rej := by decide
+-- … to one that fails in the post-hook after two insertions, and to one that is accepted
+example : (step true demo (.setParents 3 (.list [0, 1]) .post)).2 = .rej ∧
+    (parentsLoop demo 3 [0, 1]).1.parents 3 = [2, 0, 1] := by decide
+example : (step true demo (.setParents 3 (.list [0, 1]) .none)).2 = .ok := by decide
+
+/-- the statement of C10 read off `DWF`: symmetric, duplicate-free, nobody its own ancestor -/
+theorem history_invariant (k : Nat) (names : Nat → Str) (ops : List Op) :
+    let s := (run true (init k names) ops).1
+    (∀ p c, p ∈ s.parents c ↔ c ∈ s.children p) ∧
+    (∀ v, (s.parents v).Nodup ∧ (s.children v).Nodup) ∧
+    (∀ v, ¬ Anc s v v) := by
+  have h := dwf_run k names ops
+  exact ⟨h.sym, fun v => ⟨h.ndp v, h.ndc v⟩, h.acyc.irrefl⟩
+
+example : Anc demo 0 3 := .step (.base (by decide : 0 ∈ demo.parents 2)) (by decide : 2 ∈ demo.parents 3)
+
+/-! ## assignments only add, and add exactly what was requested -/
+
+/-- For every assignment-like operation (setters, `>>`, `<<`, constructor): whatever the outcome,
+every old parents / children list is a prefix of the new one (nothing removed, nothing
+reordered); and if the call is accepted the new edge set is the old one plus the requested edges -/
+theorem assign_only_adds {s : DStore} (hs : DWF s) {op : Op} (ha : op.isAssign = true) :
+    (∀ x, s.parents x <+: (step true s op).1.parents x ∧
+          s.children x <+: (step true s op).1.children x) ∧
+    ((step true s op).2 = .ok →
+      ∀ p c, p ∈ (step true s op).1.parents c ↔ p ∈ s.parents c ∨ (p, c) ∈ requested s op) :=
+  ⟨fun x => step_prefix hs ha x, fun h p c => step_adds hs h ha p c⟩
+
+example : (step true demo (.setParents 3 (.list [2, 0, 1]) .none)).2 = .ok ∧
+    (step true demo (.setParents 3 (.list [2, 0, 1]) .none)).1.parents 3 = [2, 0, 1] ∧
+    requested demo (.setParents 3 (.list [2, 0, 1]) .none) = [(2, 3), (0, 3), (1, 3)] := by decide
+
+/-- list-exact strengthening (the property only needs sets): an accepted `v.parents = l` appends
+to `v`'s parents list the members of `l` not yet listed, in the order of `l`, and touches no
+other parents list; an accepted `v.children = a` does the same to `v`'s children list -/
+theorem assign_list_exact {s : DStore} {v : Nat} :
+    (∀ (l : List Nat) (f : Fault), (setParents true s v (.list l) f).2 = .ok → ∀ x,
+      (setParents true s v (.list l) f).1.parents x =
+        if x = v then s.parents v ++ l.filter (fun p => decide (p ∉ s.parents v)) else s.parents x) ∧
+    (∀ (a : Arg) (f : Fault), (setChildren true s v a f).2 = .ok → ∀ x,
+      (setChildren true s v a f).1.children x =
+        if x = v then s.children v ++ (a.items.getD []).filter (fun c => decide (v ∉ s.parents c))
+        else s.children x) :=
+  ⟨fun _ _ h x => setParents_ok_parents h x, fun _ _ h x => setChildren_ok_children h x⟩
+
+example : (setChildren true demo 0 (.tuple [3, 2]) .none).2 = .ok ∧
+    (setChildren true demo 0 (.tuple [3, 2]) .none).1.children 0 = [1, 2, 3] := by decide
+
+/-! ## deleting removes exactly the named edges -/
+
+/-- `del v.children` / `del v[name]`: an edge is present afterwards iff it was present before
+and is not one of the named edges (`removed`: all edges out of `v`, resp. the edge to the unique
+child of that name; an ambiguous or unknown name names nothing) — read on the parents lists and
+on the children lists -/
+theorem delete_exact {s : DStore} (hs : DWF s) {op : Op} (ha : op.isAssign = false) (p c : Nat) :
+    (p ∈ (step true s op).1.parents c ↔ p ∈ s.parents c ∧ (p, c) ∉ removed s op) ∧
+    (c ∈ (step true s op).1.children p ↔ c ∈ s.children p ∧ (p, c) ∉ removed s op) := by
+  have h := step_removes hs ha p c
+  refine ⟨h, ?_⟩
+  rw [← (DagStore.dwf_step hs op).sym, ← hs.sym]
+  exact h
+
+example : (step true demo (.delChildren 0)).1.children 0 = [] ∧
+    (step true demo (.delChildren 0)).1.parents 2 = [1] ∧
+    removed demo (.delChildren 0) = [(0, 1), (0, 2)] := by decide
+
+/-! ## loops and repeated members are refused -/
+
+/-- an assignment that asks for a self-loop, a cycle (through a path of any length), a repeated
+member or a non-node is refused; `Refusable` is the first-principles description in terms of the
+reachability relation `Anc` -/
+theorem reject_loops {s : DStore} (hs : DWF s) {op : Op} (h : Refusable s op) :
+    (step true s op).2 = .rej :=
+  DagStore.reject_loops hs h
+
+-- closing a cycle through the path 0 → 1 → 2 → 3 of length 3 via the children setter
+example : Refusable demo (.setChildren 3 (.list [0]) .none) :=
+  ⟨[0], rfl, Or.inr (Or.inr (Or.inl ⟨0, by simp,
+    .step (.base (by decide : 0 ∈ demo.parents 2)) (by decide : 2 ∈ demo.parents 3)⟩))⟩
+-- … and via the parents setter
+example : Refusable demo (.setParents 0 (.list [3]) .none) :=
+  ⟨[3], rfl, Or.inr (Or.inr (Or.inl ⟨3, by simp,
+    .step (.base (by decide : 0 ∈ demo.parents 2)) (by decide : 2 ∈ demo.parents 3)⟩))⟩
+
+/-! ## the up-front check is enough for the sequential insertion -/
+
+/-- the guards look at the store **before** the first insertion only, while the loop inserts
+one edge after the other (so later insertions see ancestors the check did not). That is enough:
+if the guard passes, the loop runs to completion and ends in a well-formed store. Reason
+(`Acyclic.add_in` / `Acyclic.add_out`): all new edges end (resp. start) in the one node `v`, so
+only `v` and its descendants gain ancestors, and a cycle would have to pass a new edge and then
+return from `v` to its source through old edges only. -/
+theorem upfront_check_suffices {s : DStore} (hs : DWF s) {v : Nat} (hv : v < s.n) (l : List Nat) :
+    (checkParentLoop s v l [] = true →
+      (parentsLoop s v l).2 = true ∧ DWF (parentsLoop s v l).1) ∧
+    (checkChildrenLoop s v l [] = true →
+      (childrenLoop s v l).2 = true ∧ DWF (childrenLoop s v l).1) := by
+  constructor
+  · intro h
+    have hsp := checkParentLoop_spec h
+    rw [parentsLoop_eq hsp.1 (fun p hp => (hsp.2 p hp).1)]
+    exact ⟨rfl, dwf_addParents hs hv h⟩
+  · intro h
+    have hsp := checkChildrenLoop_spec h
+    rw [childrenLoop_eq hsp.1 (fun p hp => (hsp.2 p hp).1)]
+    exact ⟨rfl, dwf_addChildren hs hv h⟩
+
+example : checkParentLoop demo 3 [0, 1] [] = true ∧ checkChildrenLoop demo 0 [3] [] = true := by
+  decide
+
+/-! ## the fuel of the recursive `ancestors` -/
+
+/-- on a well-formed store the fuel-bounded (`n + 1`), de-duplicated `ancestors` list is exactly
+the set of proper ancestors (transitive closure of "is a parent of") -/
+theorem anc_fuel_complete {s : DStore} (hs : DWF s) (a v : Nat) :
+    a ∈ ancestors s v ↔ Anc s a v :=
+  mem_ancestors hs
+
+example : ancestors demo 3 = [0, 1, 2] := by decide
+
+end C10
